@@ -330,7 +330,10 @@ def main():
     cap = CAP_QUICK if t == "quick" else CAP_THOROUGH
     mult = 3 if t == "quick" else 24
     cases = []
+    only = os.environ.get("VERIF_ONLY")       # development aid: restrict the run to the profiles whose description contains this text
     for kind, prof, n in QUICK:
+        if only and only not in json.dumps(prof, sort_keys=True):
+            continue
         for i in range(n * mult):
             cases.append((bdir, derive(seed, "c13", kind, json.dumps(prof, sort_keys=True), i) >> 1, kind, prof, cap))
     counted = pmap(count_work, cases)
